@@ -68,6 +68,7 @@ pub fn run_line(line: &str) -> String {
     let (kind, rest) = split_word(line);
     match kind {
         "D" => d_case(rest),
+        "W" => w_case(rest),
         "E" => e_case(rest),
         "T" => guard(|| t_case(rest)),
         "H" => guard(|| h_case(rest)),
@@ -75,6 +76,24 @@ pub fn run_line(line: &str) -> String {
         "R" => r_case(rest),
         "" => bad("empty line"),
         other => bad(format!("unknown case kind {}", other)),
+    }
+}
+
+// ---------------------------------------------------------------------------
+// W: verdict and value only (compared with the reference decoder of the Coq development)
+// ---------------------------------------------------------------------------
+
+fn w_case(rest: &str) -> String {
+    let line = d_case(rest);
+    if let Some(body) = line.strip_prefix("OK ") {
+        match body.find(" cost=") {
+            Some(i) => format!("OK {}", &body[..i]),
+            None => line,
+        }
+    } else if line.starts_with("ERR ") {
+        "REJECT".to_string()
+    } else {
+        line
     }
 }
 
